@@ -16,7 +16,7 @@ RULE = (
     "centers), one of the four documented configurations (ball+spherical+haversine, ball+cartesian+euclidean|minkowski, "
     "kd+cartesian, kd+spherical), reconstruct, and a k-nearest or radius query (1-4 query points, degrees or radians, planted "
     "at +-180 longitude, near and at the poles and on top of elements; k in 1..n; radius >= 0). Oracle: brute-force distances "
-    "to every element under the requested metric, tie-tolerant (1e-9). Non-trivial = at least two steps with different "
+    "to every element under the requested metric, tie-tolerant (1e-9). The query array is compared with a private copy afterwards; grids may carry Cartesian node coordinates on a non-unit sphere (Cartesian queries are then posed in the frame of the coordinates the grid reports). Non-trivial = at least two steps with different "
     "configurations, or a batched query, or a query point within 10 degrees of the antimeridian or a pole; distinct by case hash."
 )
 ASSUMPTIONS = [
